@@ -35,6 +35,12 @@ type childCfg struct {
 
 func runChild(cfg childCfg) {
 	wal.SegmentSizeBytes = cfg.SegSize
+	// for the simulated power loss: remember where the tail segment was last fdatasync'ed
+	syncFile := path.Join(cfg.Dir, "walsync")
+	wal.VerifSyncHook = func(tail string, off int64) {
+		ioutil.WriteFile(syncFile+".tmp", []byte(fmt.Sprintf("%s %d\n", tail, off)), 0644)
+		os.Rename(syncFile+".tmp", syncFile)
+	}
 	if _, err := os.Stat(path.Join(cfg.Dir, "myid")); err != nil {
 		ioutil.WriteFile(path.Join(cfg.Dir, "myid"), []byte("1"), common.FILE_PERM)
 	}
